@@ -648,6 +648,9 @@ func (v Value) convert(t Type) (res Value) {
 		if v.t.base() == TypeSlice {
 			return v
 		}
+		if v.t == TypeNil {
+			return Value{t: sliceType(TypeUint8)} // []byte(nil) is the nil slice
+		}
 		data := []byte(v.String())
 		s := make([]Value, len(data))
 		for k, v := range data {
